@@ -279,7 +279,8 @@ def gate_and_minimise(engine_cls, tier, seed, key, plan, log):
     tries = 0
     t0 = time.time()
     improved = True
-    while improved and tries < 400 and time.time() - t0 < 120:
+    max_tries = 8 if "hang" in key else 400
+    while improved and tries < max_tries and time.time() - t0 < 90:
         improved = False
         for cand in eng.shrink(plan):
             tries += 1
@@ -292,7 +293,7 @@ def gate_and_minimise(engine_cls, tier, seed, key, plan, log):
                 plan = cand
                 improved = True
                 break
-            if tries >= 400 or time.time() - t0 > 120:
+            if tries >= max_tries or time.time() - t0 > 90:
                 break
     ex.close()
     r3 = run_plan_fresh(engine_cls, tier, seed, plan)
